@@ -1646,6 +1646,17 @@ def rule_F11(prog):
             r.find(fn.path, "len_utf8", "[u8]::%s derives a byte offset from `%s`; decoded characters of invalid input are "
                    "replacement characters, so offsets must come from bstr's char_indices end offsets" % (fn.name, calls[0].get("src", "len_utf8")),
                    file=fn.file, line=calls[0]["line"])
+        # a token must be a sub-slice of the input: the bytes of a *decoded* piece (a `&str` handed out by bstr, where an
+        # invalid byte has become U+FFFD) are not
+        dec = find_nodes(fn.hir, lambda n: n["k"] == "mcall" and n["name"] in ("as_bytes", "bytes", "into_bytes") and
+                         (n.get("recv_ty") or "").replace("&", "").replace("'_ ", "").strip() in ("str", "std::string::String"))
+        r.instances += 1
+        r.ob(not dec, "[u8]::%s returns bytes of decoded pieces %d time(s)" % (fn.name, len(dec)))
+        if dec:
+            r.find(fn.path, "decoded-piece", "[u8]::%s builds a token from `%s`: the piece is a decoded &str in which bstr has "
+                   "replaced every invalid byte by U+FFFD, so the tokens no longer concatenate to the input (use the "
+                   "*_indices variant and slice `self`)" % (fn.name, dec[0].get("src", "as_bytes")[:70]),
+                   file=fn.file, line=dec[0]["line"])
     if seen_str == 0:
         r.notes.append("CONTROL-FAILED: the str tokenizers do not use len_utf8 (rule pattern no longer matches anything)")
     return r
